@@ -206,6 +206,66 @@ def gen_tree(rng, depth, nclusters, value_range, nprev=0, preds=None, allow_stat
     return relabel(t)
 
 
+def gen_lz_const_channel_image(rng):
+    """LZ77 on, a constant first channel alone in cluster 0 coded with literals only (entropy modes 7 / 8:
+    a single-symbol histogram although LZ77 is enabled), and a later channel in the same group that
+    starts with the same value, so that its first copy reaches back into the constant channel."""
+    w, h = rng.randint(3, 24), rng.randint(1, 12)
+    bits = rng.choice([8, 8, 12, 16])
+    hi = (1 << bits) - 1
+    gray = rng.random() < 0.5
+    nch = 2 if gray else 3
+    v = rng.choice([0, 1, 7, hi // 2, hi])
+    ecs = [{"ty": 1, "dim_shift": 0, "bits": bits, "alpha_assoc": False}] if gray else []
+    img = {"w": w, "h": h, "bits": bits, "gray": gray, "buf16": bits <= 12 and rng.random() < 0.7, "ecs": ecs,
+           "orient": 1, "anim": None}
+    chans = [(w, h, [v] * (w * h))]
+    for _ in range(nch - 1):
+        lead = rng.randint(3, min(w * h, 12))
+        data = [v] * lead + [rng.randint(0, hi) for _ in range(w * h - lead)]
+        if rng.random() < 0.5:                         # another run of the constant later on
+            k = rng.randrange(len(data))
+            data[k:k + 5] = [v] * len(data[k:k + 5])
+        chans.append((w, h, data))
+    # channel 0 -> leaf of cluster 0 (Zero predictor), the others -> cluster 1 (Zero predictor too: the
+    # tokens of equal samples are equal, so the LZ77 matcher finds the copy across the channel boundary)
+    tree = ("D", 0, 0, ("L", 1, 0, 0, 1), ("L", 0, 0, 0, 1))
+    frame = {"gshift": rng.randrange(4), "chans": chans, "tr": [], "pals": [], "tree": tree, "wp": None,
+             "ent": rng.choice([7, 8])}
+    return img, [frame], "lz77-constant-channel"
+
+
+def gen_dimshift_image(rng):
+    """extra channels stored at 1/2, 1/4 or 1/8 resolution (`dim_shift`): in a multi-group frame a small
+    channel after a larger-than-group one goes to the LF-group / pass-group streams, not to the global
+    stream. The decoder upsamples such channels to floats, so only the full-resolution channels can be
+    compared sample by sample."""
+    big = rng.random() < 0.6
+    if big:
+        w, h, gshift = rng.choice([130, 200, 257, 300]), rng.choice([129, 150, 257]), 0
+    else:
+        w, h, gshift = rng.randint(1, 40), rng.randint(1, 40), rng.randrange(4)
+    bits = rng.choice([8, 8, 10, 12, 16])
+    gray = rng.random() < 0.3
+    ecs = []
+    for _ in range(rng.choice([1, 1, 2])):
+        ecs.append({"ty": rng.choice([0, 1, 3]), "dim_shift": rng.choice([1, 1, 2, 3]), "bits": bits, "alpha_assoc": False})
+    if rng.random() < 0.3:
+        ecs.insert(rng.randrange(len(ecs) + 1), {"ty": 1, "dim_shift": 0, "bits": bits, "alpha_assoc": False})
+    img = {"w": w, "h": h, "bits": bits, "gray": gray, "buf16": bits <= 12 and rng.random() < 0.7, "ecs": ecs,
+           "orient": 1, "anim": None}
+    hi = (1 << bits) - 1
+    chans = [(w, h, gen_pixels(rng, w, h, 0, hi)) for _ in range(1 if gray else 3)]
+    for e in ecs:
+        cw, ch = -(-w >> e["dim_shift"]), -(-h >> e["dim_shift"])
+        chans.append((cw, ch, gen_pixels(rng, cw, ch, 0, hi)))
+    frame = {"gshift": gshift, "chans": chans, "tr": [], "pals": [],
+             "tree": gen_tree(rng, rng.choice([0, 1, 2]), rng.randint(1, 4), (0, hi), nprev=0), "wp": None}
+    if rng.random() < 0.3:
+        frame["tocperm"] = rng.randrange(1000)
+    return img, [frame], "ec-dim-shift" + ("-multi-group" if big else "")
+
+
 def gen_modular_image(rng, opts=None):
     """one single-frame Modular image plan: (img, [frame]); the generator walks channel layouts,
     bit depths, trees, predictors, weighted-predictor parameters and transforms"""
